@@ -233,6 +233,27 @@ MODEL_CODES = {10: "header encoding differs from the model", 11: "header decodin
                16: "decode (checksum verdict) differs from the model", 17: "decoded block differs from the model", 18: "reassembly outputs differ from the model"}
 
 
+def block_limit_probe():
+    """the 32767-block limit: a body of 32767 x 244 bytes is split into blocks 1..32767, the end bit on the last one only; one byte more
+    cannot be numbered (block 32768 would read as block 0 with the end bit) and is refused"""
+    from secsgem.secsi.header import SecsIHeader
+    from secsgem.secsi.message import SecsIMessage
+    hdr = SecsIHeader(7, 1, 1, 1, True)
+    out = {}
+    msg = SecsIMessage(hdr, bytes(244 * 32767))
+    blocks = msg.blocks
+    out["blocks_at_the_limit"] = len(blocks)
+    out["numbered_1_to_n"] = [b.header.block for b in (blocks[0], blocks[1], blocks[-1])] == [1, 2, 32767]
+    out["end_bit_on_the_last_only"] = blocks[-1].header.last_block and not any(b.header.last_block for b in blocks[:-1])
+    try:
+        over = SecsIMessage(hdr, bytes(244 * 32767 + 1))
+        out["one_byte_more"] = f"accepted with {len(over.blocks)} blocks, the last one numbered {over.blocks[-1].header.block} end bit {over.blocks[-1].header.last_block}"
+    except ValueError:
+        out["one_byte_more"] = "refused"
+    out["holds"] = out["blocks_at_the_limit"] == 32767 and out["numbered_1_to_n"] and out["end_bit_on_the_last_only"] and out["one_byte_more"] == "refused"
+    return out
+
+
 def run(tier, replay=None):
     report = common.Report("C16", tier)
     if replay:
@@ -252,6 +273,10 @@ def run(tier, replay=None):
         report.violation({"kind": "counterexample", "what": "a block with one byte altered in transit was accepted by SecsIBlock.decode", **accepted[0], "count": len(accepted), "swept": swept}, True, tag="sweep")
     bad, stats = evaluate(lits, "c16")
     decide_lits(report, "C16", lits, bad, stats, proof, SPEC_CODES, MODEL_CODES)
+    lim = block_limit_probe()
+    report.coverage["block_limit"] = lim
+    if not lim["holds"]:
+        report.violation({"kind": "counterexample", "what": "at the 32767-block limit the blocks are not numbered 1..n with the end bit on the last one / a longer body is not refused", **lim}, True, tag="blocklimit")
     import hashlib
     from collections import Counter
     cov = report.coverage
